@@ -3,7 +3,7 @@ from . import cacheworld as cw
 
 PROP = 'C03'
 PROFILE = 'c03'
-QUICK = (72, 60, 60.0)
+QUICK = (144, 60, 60.0)
 THOROUGH = (160, 100, 840.0)
 boot, execute, cfg_sig, nontrivial = cw.boot, cw.execute, cw.cfg_sig, cw.nontrivial
 SHRINK_LISTS, SHRINK_DICTS = cw.SHRINK_LISTS, cw.SHRINK_DICTS
